@@ -18,6 +18,26 @@ Theorem C16_independent_of_arrival_order : forall items items',
   Permutation items items' -> most_recent items = most_recent items'.
 Proof. exact most_recent_perm_invariant. Qed.
 
+(* a caller that joins a running lookup is handed what arrived before it asked (in whatever order the node kept it) and
+   then the rest as it arrives: it returns what the first caller returns *)
+Theorem C16_joining_caller_agrees : forall before before' after,
+  Permutation before before' -> most_recent (before' ++ after) = most_recent (before ++ after).
+Proof. exact joiner_agrees. Qed.
+
+(* a caller that was handed only part of what the lookup delivered can only fall short of the full answer, never exceed
+   it; and if the full answer is among what it was handed, it returns it *)
+Theorem C16_partial_stream_never_above : forall seen missed r,
+  most_recent seen = Some r ->
+  match most_recent (seen ++ missed) with
+  | Some full => (fst r < fst full)%Z \/ (fst r = fst full /\ bytes_cmp (snd r) (snd full) <> Gt)
+  | None => False
+  end.
+Proof. exact partial_stream_never_above. Qed.
+
+Theorem C16_maximum_handed_over_is_returned : forall seen missed full,
+  most_recent (seen ++ missed) = Some full -> In full seen -> most_recent seen = Some full.
+Proof. exact maximum_handed_over_is_returned. Qed.
+
 Example C16_nonvacuous :
   most_recent [(1%Z, [97]); (2%Z, [98])] = Some (2%Z, [98]) /\ most_recent [(2%Z, [98]); (1%Z, [122])] = Some (2%Z, [98])
   /\ most_recent [(2%Z, [97]); (2%Z, [98]); (2%Z, [97; 97])] = Some (2%Z, [98]).
@@ -25,4 +45,7 @@ Proof. vm_compute. repeat split. Qed.
 
 Print Assumptions C16_most_recent_is_max.
 Print Assumptions C16_independent_of_arrival_order.
+Print Assumptions C16_joining_caller_agrees.
+Print Assumptions C16_partial_stream_never_above.
+Print Assumptions C16_maximum_handed_over_is_returned.
 Print Assumptions C16_nonvacuous.
